@@ -126,10 +126,20 @@ def build_repo_bin(release=False):
 
 # ---------------------------------------------------------------- evaluators
 
+def _big_stack():
+    # the extracted model recurses structurally over long lists (large files): give the evaluators the hard stack limit
+    import resource
+    soft, hard = resource.getrlimit(resource.RLIMIT_STACK)
+    try:
+        resource.setrlimit(resource.RLIMIT_STACK, (hard, hard))
+    except (ValueError, OSError):
+        pass
+
+
 def _run_lines(exe, lines, timeout):
     data = ("\n".join(lines) + "\n").encode("utf-8")
     try:
-        p = subprocess.run([exe], input=data, stdout=subprocess.PIPE, stderr=subprocess.PIPE, timeout=timeout)
+        p = subprocess.run([exe], input=data, stdout=subprocess.PIPE, stderr=subprocess.PIPE, timeout=timeout, preexec_fn=_big_stack)
     except subprocess.TimeoutExpired as e:
         # an evaluator that does not finish in time breaks the tie between model and code: reported by the caller
         raise BuildError("evaluator %s did not finish %d cases within %d s" % (exe, len(lines), timeout))
